@@ -426,27 +426,97 @@ def boxfilter_cases(sc):
     return cs, (out, err)
 
 
-def filtfilt_direct_cases(rng):
-    """FilterAnalyzer.filtfilt(b, a, in_ts=other): attributes must come from in_ts"""
+def gen_filtfilt_scenario(rng, i):
+    """FilterAnalyzer.filtfilt(b, a, in_ts=other): the public keyword replaces the analyzer's own series; the
+    other series differs from it in channel count / 1-d vs 2-d, length, unit, t0, rate and means"""
     s1 = gen_series(rng, 30, 48)
     s2 = gen_series(rng, 30, 48)
-    T1, T2 = build_series(s1), build_series(s2)
-    from nitime.analysis import FilterAnalyzer
+    if i % 3 == 0:                      # same shape, everything else different: only the values tell them apart
+        s2["n"], s2["ch"] = s1["n"], s1["ch"]
+        s2["data"] = data_json(make_data(rng, s1["n"], s1["ch"]) + 100.0 * (1 + i % 5))
     b = [0.25, 0.5, 0.25] if rng.random() < 0.5 else [0.2, 0.2, 0.2, 0.2, 0.2]
     a = [1.0] if rng.random() < 0.5 else [1.0, -0.3]
-    use_other = rng.random() < 0.7
-    cs = []
-    sc = {"filtfilt": True, "s1": s1, "s2": s2, "b": b, "a": a, "other": use_other}
+    return {"filtfilt": True, "s1": s1, "s2": s2, "b": b, "a": a, "other": rng.random() < 0.8,
+            "kw": rng.random() < 0.7}
+
+
+def filtfilt_run(sc, data=None):
+    """-> (filtered series | None, error class | None, recording, axis of the series that is filtered, its data)"""
+    from nitime.analysis import FilterAnalyzer
+    T1 = build_series(sc["s1"], data if not sc["other"] else None)
+    T2 = build_series(sc["s2"], data if sc["other"] else None) if sc["other"] else None
+    Tin = T2 if sc["other"] else T1
+    ain, din = axis_of(Tin), np.array(Tin.data, dtype=float)
     with record() as rec:
-        out = FilterAnalyzer(T1, lb=0, ub=None).filtfilt(b, a, in_ts=T2 if use_other else None)
-    Tin = T2 if use_other else T1
-    cs.append(Case(k_axis("MFiltfilt", axis_of(Tin), axis_of(out)), {"scenario": sc, "kind": "axis-filtfilt"},
-                   "axis-filtfilt/%s" % Tin.time_unit))
-    xs, ys = rows(Tin.data), rows(out.data)
-    for c, (x, y) in enumerate(zip(xs, ys)):
-        cs.append(Case(k_chain(len(x), x, [rec["filtfilt"][c][3]], y), {"scenario": sc, "kind": "filtfilt-chain"},
-                       "filtfilt-chain"))
-    return cs, (Tin, out)
+        try:
+            F = FilterAnalyzer(T1, lb=0, ub=None)
+            if not sc["other"]:
+                out = F.filtfilt(sc["b"], sc["a"])
+            elif sc.get("kw", True):
+                out = F.filtfilt(sc["b"], sc["a"], in_ts=T2)
+            else:
+                out = F.filtfilt(sc["b"], sc["a"], T2)
+            return out, None, rec, ain, din
+        except Exception as e:  # noqa
+            return None, type(e).__name__ + ": " + str(e)[:200], rec, ain, din
+
+
+def filtfilt_cases(sc, run):
+    out, err, rec, ain, din = run
+    cs = []
+    if out is None:
+        return cs
+    tag = "in_ts" if sc["other"] else "own"
+    cs.append(Case(k_axis("MFiltfilt", ain, axis_of(out)), {"scenario": sc, "kind": "axis-filtfilt"},
+                   "axis-filtfilt/%s/%s" % (tag, ain["unit"])))
+    xs, ys = rows(din), rows(out.data)
+    if len(xs) == len(ys) == len(rec["filtfilt"]):
+        for c, (x, y) in enumerate(zip(xs, ys)):
+            cs.append(Case(k_chain(len(x), x, [], rec["filtfilt"][c][2]), {"scenario": sc, "kind": "filtfilt-input"},
+                           "filtfilt-input/%s" % tag))
+            cs.append(Case(k_chain(len(x), x, [rec["filtfilt"][c][3]], y), {"scenario": sc, "kind": "filtfilt-chain"},
+                           "filtfilt-chain/%s" % tag))
+    else:   # deliberately disagreeing: not one library call per channel of the series that is filtered
+        cs.append(Case(k_chain(1, [0.0], [], [1.0]), {"scenario": sc, "kind": "filtfilt-structure"}, "filtfilt-structure"))
+    return cs
+
+
+def filtfilt_oracle(sc, run=None):
+    """statement checks for filtfilt(b, a[, in_ts]): the series that is FILTERED (in_ts when given) keeps its
+    shape / interval / t0 / unit and its channel means, and the map data -> output is linear"""
+    run = run or filtfilt_run(sc)
+    out, err, rec, ain, din = run
+    tag = "in_ts" if sc["other"] else "own"
+    if out is None:
+        return [Fail("C18/filtfilt/raises", "FilterAnalyzer.filtfilt(b, a%s) raised %s" % (
+            ", in_ts=other" if sc["other"] else "", err), err, "a filtered series")]
+    fails = []
+    ao = axis_of(out)
+    for att in ("shape", "t0", "unit", "delta"):
+        if ain[att] != ao[att] and not (att == "delta" and ain["delta"] >= 2 ** 53):
+            fails.append(Fail("C18/filtfilt/axis-%s" % att, "FilterAnalyzer.filtfilt (%s): output %s differs from that of the "
+                              "series that was filtered" % (tag, att), ao[att], ain[att]))
+    if ao["shape"] != ain["shape"]:
+        return fails
+    sc_ = scale_of(din)
+    dm = np.abs(np.mean(out.data, -1) - np.mean(din, -1))
+    if np.max(dm) > 1e-9 * sc_:
+        fails.append(Fail("C18/filtfilt/mean", "FilterAnalyzer.filtfilt (%s) changed a channel mean of the filtered series" % tag,
+                          [float(v) for v in np.atleast_1d(np.mean(out.data, -1))],
+                          [float(v) for v in np.atleast_1d(np.mean(din, -1))]))
+    z = (np.cos(0.37 * np.arange(din.size).reshape(din.shape) ** 1.3) + 1.0) * sc_
+    a_, b_ = 1.5, -0.75
+    o2 = filtfilt_run(sc, z)[0]
+    o3 = filtfilt_run(sc, a_ * din + b_ * z)[0]
+    if o2 is None or o3 is None:
+        fails.append(Fail("C18/filtfilt/raises", "FilterAnalyzer.filtfilt (%s) raised on other data of the same shape" % tag,
+                          None, "a filtered series"))
+    else:
+        d = float(np.max(np.abs(o3.data - (a_ * out.data + b_ * o2.data))))
+        if d > 1e-7 * sc_:
+            fails.append(Fail("C18/filtfilt/linearity", "FilterAnalyzer.filtfilt (%s) is not linear in the data it filters" % tag,
+                              d, 0.0))
+    return fails
 
 
 # ------------------------------------------------------------------ the oracle (statement checks, numpy)
@@ -689,8 +759,7 @@ def gen_scenario(rng, nmax, i):
     r = rng.random()
     odd = None if r < 0.5 else (i % 2 == 1)
     s = gen_series(rng, 41, nmax, odd)
-    T = build_series(s)
-    Fs = float(T.sampling_rate)
+    Fs = spec_rate_hz(s)
     lb, ub, kind = gen_band(rng, Fs, s["n"])
     order = rng.choice([2, 4, 6, 8, 8, 10, 12])
     s["cfg"] = {"lb": fh(lb), "ub": None if ub is None else fh(ub), "order": order,
@@ -765,7 +834,7 @@ def special_scenarios(rng):
             s = gen_series(rng, n, n)
             s["n"] = n
             s["data"] = data_json(make_data(rng, n, s["ch"]))
-            Fs = float(build_series(s).sampling_rate)
+            Fs = spec_rate_hz(s)
             lb, ub, kind = gen_band(rng, Fs, n)
             s["cfg"] = {"lb": fh(lb), "ub": None if ub is None else fh(ub), "order": 2, "iters": rng.choice([1, 2, 3])}
             s["band"] = kind
@@ -775,12 +844,12 @@ def special_scenarios(rng):
     s = gen_series(rng, 12, 12)
     s["n"] = 12
     s["data"] = data_json(make_data(rng, 12, s["ch"]))
-    s["cfg"] = {"lb": fh(0.0), "ub": fh(0.1 * float(build_series(s).sampling_rate)), "order": 40, "iters": 2}
+    s["cfg"] = {"lb": fh(0.0), "ub": fh(0.1 * spec_rate_hz(s)), "order": 40, "iters": 2}
     s["band"] = "low"
     s["methods"] = ["fir"]
     out.append(s)
     s = gen_series(rng, 44, 44)
-    s["cfg"] = {"lb": fh(0.0), "ub": fh(0.2 * float(build_series(s).sampling_rate)), "order": 4, "iters": 0}
+    s["cfg"] = {"lb": fh(0.0), "ub": fh(0.2 * spec_rate_hz(s)), "order": 4, "iters": 0}
     s["band"] = "low"
     s["methods"] = ["boxcar"]
     out.append(s)
@@ -806,16 +875,33 @@ def corpus():
 def run(ctx):
     core.import_nitime()
     ctx.check_props()
-    g = ctx.check_gen("G_grid", gen_grid_table(), ["get_freqs_is_model_grid"])
+    try:
+        ctx.check_gen("G_grid", gen_grid_table(), ["get_freqs_is_model_grid"])
+    except Exception as e:  # noqa
+        ctx.obligation("G", "G_grid.v:get_freqs_is_model_grid", False, "utils.get_freqs raised %r" % (e,))
+        ctx.report_fail(Fail("C18/get_freqs/unexpected-exception", "utils.get_freqs raised %r on (Fs, n) of the table" % (e,),
+                             repr(e), "the frequency grid"), Case("", {"entry_point": "nitime.utils.get_freqs"}))
     rng = ctx.rng
     nmax = ctx.scale(64, 128)
     big = [1024, 1025, 2049, 4097, 1031, 3000, 4096] + ([] if ctx.quick else [8193, 16385, 10007, 2048, 5000, 997])
     scen = corpus() + special_scenarios(rng) + large_scenarios(rng, big, kcase_sizes=(257, 258)) + \
         [gen_scenario(rng, nmax, i) for i in range(ctx.scale(60, 320))]
     cases, results = [], []
-    skipped = {"fourier-float-boundary": 0}
+
+    def crashed(site, sc, e):
+        """an unexpected exception out of the implementation (or of the driver on its results) on an input the
+        unchanged tree handles is a concrete failing input, never a harness crash"""
+        import traceback
+        ctx.report_fail(Fail("C18/%s/unexpected-exception" % site, "%s raised %s: %s" % (site, type(e).__name__, str(e)[:300]),
+                             traceback.format_exc()[-1500:], "a result (the unchanged tree returns one)",
+                             {"scenario": sc}), Case("", {"scenario": sc}))
+
     for s in scen:
-        cs, res = cases_of(s)
+        try:
+            cs, res = cases_of(s)
+        except Exception as e:  # noqa
+            crashed("FilterAnalyzer", s, e)
+            continue
         cases += cs
         results.append((s, res, cs))
         if s.get("oracle_only"):
@@ -825,20 +911,35 @@ def run(ctx):
     direct = []
     for i in range(ctx.scale(120, 800)):
         sc = boxfilter_case(rng, ctx.scale(40, 120))
-        cs, r = boxfilter_cases(sc)
+        try:
+            cs, r = boxfilter_cases(sc)
+        except Exception as e:  # noqa
+            crashed("boxcar_filter", sc, e)
+            continue
         cases += cs
         direct.append((sc, r, cs))
     ffd = []
-    for i in range(ctx.scale(20, 200)):
-        cs, r = filtfilt_direct_cases(rng)
+    for i in range(ctx.scale(30, 240)):
+        sc = gen_filtfilt_scenario(rng, i)
+        try:
+            r = filtfilt_run(sc)
+            cs = filtfilt_cases(sc, r)
+        except Exception as e:  # noqa
+            crashed("filtfilt", sc, e)
+            continue
         cases += cs
-        ffd.append((cs, r))
+        ffd.append((sc, r, cs))
     bad = ctx.check_cases("K", HEADER, cases, "check", shard=ctx.scale(120, 250), case_type="case")
     badset = {id(cases[i]) for i in bad}
     # ---- search: the statement's checks on the implementation's results
     for s, res, cs in results:
         rep = next((c for c in cs if id(c) in badset), cs[0] if cs else Case("", {"scenario": s}))
-        for f in oracle(s, res):
+        try:
+            fl = oracle(s, res)
+        except Exception as e:  # noqa
+            crashed("FilterAnalyzer", s, e)
+            continue
+        for f in fl:
             f.replay = {"entry_point": "nitime.analysis.FilterAnalyzer", "scenario": s,
                         "model_disagrees": any(id(c) in badset for c in cs)}
             ctx.report_fail(f, rep)
@@ -850,15 +951,20 @@ def run(ctx):
         if out is None and sc["iters"] != 0:
             ctx.report_fail(Fail("C18/boxcar_filter/raises", "boxcar_filter raised %s" % err, err, "a filtered array",
                                  {"scenario": sc}), cs[0] if cs else None)
-    for cs, (Tin, out) in ffd:
-        ai, ao = axis_of(Tin), axis_of(out)
-        for att in ("shape", "t0", "unit", "delta"):
-            if ai[att] != ao[att] and not (att == "delta" and ai["delta"] >= 2 ** 53):
-                ctx.report_fail(Fail("C18/filtfilt/axis-%s" % att, "FilterAnalyzer.filtfilt: output %s differs from in_ts" % att,
-                                     ao[att], ai[att]), cs[0])
-        if np.max(np.abs(np.mean(out.data, -1) - np.mean(Tin.data, -1))) > 1e-9 * scale_of(Tin.data):
-            ctx.report_fail(Fail("C18/filtfilt/mean", "FilterAnalyzer.filtfilt changed a channel mean", None, None), cs[0])
-    probes = design_probes(ctx)
+    for sc, r, cs in ffd:
+        try:
+            fl = filtfilt_oracle(sc, r)
+        except Exception as e:  # noqa
+            crashed("filtfilt", sc, e)
+            continue
+        for f in fl:
+            f.replay = {"entry_point": "nitime.analysis.FilterAnalyzer.filtfilt", "scenario": sc}
+            ctx.report_fail(f, cs[0] if cs else Case("", {"scenario": sc}))
+    try:
+        probes = design_probes(ctx)
+    except Exception as e:  # noqa
+        crashed("design-probe", {"probe": "design_probes"}, e)
+        probes = []
     ctx.extra["design_probes_TESTS_ONLY"] = {
         "note": "pass-band gain / zero phase / stop-band attenuation of the FIR and IIR designs are properties of "
                 "scipy.signal.firwin / iirdesign / filtfilt; they are probed numerically, not proved",
@@ -904,8 +1010,12 @@ def replay(ctx, path):
         print(json.dumps({"boxcar_filter": {"err": err, "shape": None if out is None else list(np.shape(out)), "input_shape": dshape}}))
         return 1 if bad else 0
     if sc.get("filtfilt"):
-        print("filtfilt-direct scenario: re-run ./check C18")
-        return 0
+        fl = filtfilt_oracle(sc)
+        for f in fl:
+            print(json.dumps({"key": f.key, "what": f.what, "observed": f.observed, "required": f.required}, default=str))
+        if not fl:
+            print("filtfilt scenario passes all checks of the statement")
+        return 1 if fl else 0
     fails = oracle(sc)
     known = {f["key"] for f in ctx.findings.get("known", [])}
     for f in fails:
